@@ -631,6 +631,12 @@ SCOPE_TEXT = {
 }
 
 
+QUICK_NOTE = (" [quick tier: of the two-pair PEDIGREE headers over three samples the third selected by seed % 3; INFO/DP "
+              "enumerated only where FORMAT has neither AD nor DP; min_depth in {none, 2}; 10 covering (operation, "
+              "zygosity_freq, tumor_boost, min depth, pairing) configurations of the pair scope; <= 2 variants in the "
+              "boost scope]")
+
+
 def run(ctx: Ctx):
     thorough = ctx.tier == "thorough"
     extra = os.environ.get("VERIF_C18_KNOWN")      # development aid: proposed known_findings entries not yet committed
@@ -648,7 +654,8 @@ def run(ctx: Ctx):
     scopes = SCOPES_THOROUGH if thorough else SCOPES_QUICK
     for k, (scope, mindset) in enumerate(scopes):
         cfg = ctx.cfg(f"mc-{scope}", spec="Spec", invariants=["DesignOKModuloKnown", "DesignNoDrift"],
-                      constants={"Scope": f'"{scope}"', "MindSet": mindset})
+                      constants={"Scope": f'"{scope}"', "MindSet": mindset, "Tier": f'"{ctx.tier}"',
+                                 "Shard": ctx.seed % 3})
         # -coverage 1 makes TLC orders of magnitude slower on the recursive limb operators (7200 states: 4 s vs > 20 min)
         r, states = ctx.mc(MC, cfg, timeout=3000, tag=f"{MC}-{scope}", coverage=False)
         inputs = _inputs_from_states(states)
@@ -657,9 +664,10 @@ def run(ctx: Ctx):
         recs = ctx.execute(execute, inputs)
         all_records += recs
         ctx.notes[f"scope_{scope}"] = {"scope": SCOPE_TEXT[scope], "tlc_states": r.distinct, "replayed": len(recs)}
-    ctx.exhaustive = "; ".join(f"{s}: {SCOPE_TEXT[s]}" for s, _ in scopes) + " -- every dumped state replayed"
+    ctx.exhaustive = ("; ".join(f"{s}: {SCOPE_TEXT[s]}" for s, _ in scopes) + " -- every dumped state replayed"
+                      + ("" if thorough else QUICK_NOTE))
     # the strict design invariant is expected to fail only on the known-finding triggers (informational)
-    n_rand = 12000 if thorough else 1500
+    n_rand = 12000 if thorough else 1000
     rnd = ctx.execute(execute, random_inputs(ctx, n_rand))
     all_records += rnd
     for rec in all_records:
